@@ -2,7 +2,7 @@
    answers (control logic against ANY text), or the concrete XML + message model *)
 From Coq Require Import List NArith ZArith Bool String.
 Import ListNotations.
-From Indi Require Import Base.Sx Buffer.Model Msg.Registry Msg.Equality Msg.Model Msg.Run Xml.Lex
+From Indi Require Import Base.Sx Buffer.Model Buffer.Junk Msg.Registry Msg.Equality Msg.Model Msg.Run Xml.Lex
   Generated.RegistryData.
 
 Definition table := list (str * (N * Z)).    (* prefix -> (code 0 not xml / 1 invalid / 2 message, id) *)
@@ -60,10 +60,20 @@ Definition run_buffer_concrete (x : sx) : sx :=
   | _ => bad_input
   end.
 
-(* ("table" ...) | ("concrete" ...) *)
+(* (c s) -> is c a corrupt front before s, by the concrete parser?  and does s start with a known opener? *)
+Definition run_corrupt (x : sx) : sx :=
+  match x with
+  | SL [SA c; SA s] =>
+      SL [of_bool (corruptb msg concrete_parse c s);
+          of_bool (match first_opener (rbuffer_tags live_registry) s with Some O => true | _ => false end)]
+  | _ => bad_input
+  end.
+
+(* ("table" ...) | ("concrete" ...) | ("corrupt" ...) *)
 Definition run_buffer (x : sx) : sx :=
   match x with
   | SL [t; a] => if is_tag "table" t then run_buffer_table a
-                 else if is_tag "concrete" t then run_buffer_concrete a else bad_input
+                 else if is_tag "concrete" t then run_buffer_concrete a
+                 else if is_tag "corrupt" t then run_corrupt a else bad_input
   | _ => bad_input
   end.
